@@ -27,7 +27,7 @@ def observe(ctx, cases, tag):
 def run(tier, seed):
     ctx = core.Ctx("C02", tier, seed, LEVEL)
     cases = []
-    for cfg in (["MC_C02_q", "MC_C02_q2"] if tier == "quick" else ["MC_C02_t"]):
+    for cfg in (["MC_C02_q", "MC_C02_q2"] if tier == "quick" else ["MC_C02_t", "MC_C02_t2", "MC_C02_t3"]):
         r = core.tlc("MC_C02", cfg, workers=12, timeout=3000)
         if not r.ok:
             raise core.ToolError(f"MC_C02/{cfg}: {r.stdout[-2000:]}")
@@ -63,7 +63,7 @@ def run(tier, seed):
     ctx.cov["programs_compiled"] = stats.get("compiled")
     ctx.cov["distinct_nontrivial"] = len({(json.dumps(r["in"], sort_keys=True), r.get("k"), r.get("f"), r.get("vin")) for r in recs if r["prop"] == "C02"})
     ctx.cov["rule"] = ("TLC enumerates enums of <= MaxVariants variants (unit / tuple / struct) x variant items (none, rename, ghost with / without default, type_hint to tuple / "
-                       "struct / unit) x payload-field items (none, rename, expression, ghost with default) x default case; each well-formed enum is compiled with the real "
+                       "struct / unit) x payload-field items (none, rename, expression, rename + expression, fields naming each other's positions with / without expression, ghost with default) x variant-level #[ghosts] (counterpart-only payload fields) x enum-level #[ghosts] (counterpart-only variants) x default case; each well-formed enum is compiled with the real "
                        "proc-macro as twin enums (owned, owned fallible, by-reference) against generated counterparts D (exact) and DI (with marker variants that make the "
                        "ghost default and the default case observable); every variant value is converted in every direction and TLC compares the observed (variant, payload "
                        "leaves) with FromExp / IntoExp.  One evaluation = one executed conversion of one variant value.")
